@@ -897,6 +897,14 @@ func (w *AWorld) netDeliverOne() bool {
 // fsYields makes every file-system operation of a goroutine the scheduler knows a scheduling
 // point (swarm option: costs one step per operation, so only some runs use it). With it a
 // goroutine that walks the store directory can be interleaved with one that renames in it.
+// netYields makes every read and write of a server-side connection end a scheduling point
+// (swarm option, like fsYields): two connection handlers can be interleaved between building
+// a reply and writing it.
+func (w *AWorld) netYields() {
+	w.nw.Gate = func() { simrt.Yield("net") }
+	w.r.Count("probe:runs-with-network-operation-yields")
+}
+
 func (w *AWorld) fsYields() {
 	w.fs.Gate = func() { simrt.Yield("fs") }
 	w.r.Count("probe:runs-with-fs-operation-yields")
